@@ -124,6 +124,39 @@ def parseRows : Nat → List String → Option (List Row × List String)
     pure (⟨t, m, g⟩ :: rs, rest)
   | _, _ => none
 
+/-- compact form of a large batch: `<nb> (<token row> <mask row>)*nb <n> (<i>|<targets>)*n` —
+    `nb` base rows and `n` occurrences, occurrence = index of its base row and its own targets;
+    expanded here to the `n` rows of the batch -/
+def parseCompact : List String → Option (List Row × List String)
+  | nb :: rest => do
+    let nb ← nb.toNat?
+    if rest.length < 2 * nb then none else
+    let rec base : Nat → List String → Option (List (List Nat × List Bool))
+      | 0, _ => some []
+      | k + 1, t :: m :: r => do
+        let t ← parseToks t
+        let m ← parseMask m
+        let bs ← base k r
+        pure ((t, m) :: bs)
+      | _, _ => none
+    let bs ← base nb rest
+    let bsA := bs.toArray
+    match rest.drop (2 * nb) with
+    | n :: rest =>
+      let n ← n.toNat?
+      if rest.length < n then none else
+      let rows ← (rest.take n).mapM fun o =>
+        match o.splitOn "|" with
+        | [i, g] => do
+          let i ← i.toNat?
+          let g ← parseRats g
+          let (t, m) ← bsA[i]?
+          pure (⟨t, m, g⟩ : Row)
+        | _ => none
+      pure (rows, rest.drop n)
+    | [] => none
+  | [] => none
+
 def showRow (r : Row) : String := s!"{showToks r.toks} {showMask r.mask} {showRats r.tgt}"
 
 def showRows (rs : List Row) : String :=
@@ -179,6 +212,8 @@ def showFailures (fs : List String) : String :=
 /-- ops:
   `dedup <n> <row>*n`                               → `ok <m> <row>*m`
   `check-dedup <tol> <n> <row>*n <m> <row>*m`       → `ok` | `fail <keys>`
+  `dedup-compact <compact batch>`                   → `ok <m> <row>*m`
+  `check-dedup-compact <tol> <compact batch> <m> <row>*m` → `ok` | `fail <keys>`
   `logits <W|max> <transcript>`                     → `ok <n> <sparse row>*n` | `crash`
   `encodegames <W|max> <g> <transcript>*g`          → `ok <game batch>` | `crash`
   `check-encodegames <W|max> <g> <transcript>*g <game batch>` → `ok` | `fail <keys>`
@@ -194,6 +229,20 @@ def handle : List String → Option String
     let tol ← parseRat tol
     let n ← n.toNat?
     let (inp, rest) ← parseRows n rest
+    match rest with
+    | m :: rest =>
+      let m ← m.toNat?
+      let (out, rest) ← parseRows m rest
+      if !rest.isEmpty then none else
+      pure (showFailures (dedupFailures tol inp out))
+    | [] => none
+  | "dedup-compact" :: rest => do
+    let (rows, rest) ← parseCompact rest
+    if !rest.isEmpty then none else
+    pure ("ok " ++ showRows (dedupBatch rows))
+  | "check-dedup-compact" :: tol :: rest => do
+    let tol ← parseRat tol
+    let (inp, rest) ← parseCompact rest
     match rest with
     | m :: rest =>
       let m ← m.toNat?
